@@ -144,6 +144,7 @@ func c18Ctx(variant int) map[string]interface{} {
 		"st":   c18Struct{Name: "s", Items: c18Spare(2, 1), Tags: c18SpareStr("t2", "t1"), Meta: map[string]interface{}{"k": "v"}, Ptr: inner, priv: []int{1, 2}},
 		"pst":  &c18Struct{Name: "ps", Items: c18Spare("b", "a"), Tags: c18SpareStr("u2", "u1"), Meta: map[string]interface{}{"k": c18Spare(1)}, Ptr: inner},
 		"s":    "hello world", "n": 5, "pn": inner,
+		"lazy": map[string]interface{}{"total": func() interface{} { return 42 }, "label": func() string { return "L" }, "both": func() (interface{}, error) { return "B", nil }, "list": []interface{}{func() interface{} { return 1 }}},
 		"buf": bytes.NewBufferString("buffered <fragment>"), "page": map[string]interface{}{"body": bytes.NewBufferString("page body")},
 		"parts": []interface{}{bytes.NewBufferString("part one"), bytes.NewBufferString("part two"), "plain"}, "rdr": strings.NewReader("reader text"),
 		"pairs": map[string]interface{}{"hello": "Ann", "": "-", "o": "0", " ": "_"},
@@ -219,6 +220,13 @@ func c18Snap(v reflect.Value, b *strings.Builder, seen map[uintptr]bool, depth i
 			b.WriteString("nilmap")
 			return
 		}
+		// a map that (by now) contains itself is dumped once per path, not without end
+		if seen[v.Pointer()] {
+			b.WriteString("<map containing itself>")
+			return
+		}
+		seen[v.Pointer()] = true
+		defer delete(seen, v.Pointer())
 		var parts []string
 		it := v.MapRange()
 		for it.Next() {
@@ -288,8 +296,8 @@ func c18Templates(r *core.Rand) (map[string]string, bool) {
 	case 20:
 		// values of the caller's that can be read only once if read the wrong way (buffers, readers): printing them, plainly
 		// or through filters, reads their text and leaves them as they are
-		bv := []string{"buf", "page.body", "parts", "parts[0]", "rdr"}[r.Intn(5)]
-		t = "{{ " + bv + " }}|{{ " + bv + " }}|{% for p in parts %}{{ p }}{% endfor %}|{{ page.body }}{{ buf ~ '' }}|{{ " + bv + "|" + f1 + " }}|{% set held = " + bv + " %}{{ held }}{{ rdr }}"
+		bv := []string{"buf", "page.body", "parts", "parts[0]", "rdr", "lazy.total", "lazy['label']", "lazy.both", "lazy.list[0]", "lazy"}[r.Intn(10)]
+		t = "{{ lazy.total }}{{ lazy['label'] }}{{ lazy.both }}{% for k, f in lazy %}{{ f }}{% endfor %}" + "{{ " + bv + " }}|{{ " + bv + " }}|{% for p in parts %}{{ p }}{% endfor %}|{{ page.body }}{{ buf ~ '' }}|{{ " + bv + "|" + f1 + " }}|{% set held = " + bv + " %}{{ held }}{{ rdr }}"
 	case 19:
 		// maps of the caller's with unusual keys (empty, blank, digits) handed to filters and functions as an argument
 		pv := []string{"pairs", "row.pairs", "spk", "row.spk", "m", "tm"}[r.Intn(6)]
